@@ -20,7 +20,7 @@ EXPLANATION = (
     "Declined: numeric tolerance of the duration statistic; R6 (last-sample end time is the max only for monotone pts) is a finding, see C06/R6.")
 TRUSTED = ["std::io::Write::write_all contract", "mxlint fact extraction", "externals classification (lib/mx/externals.py)"]
 
-FLOORS = {"sink_calls": 1, "helper_callsites": 17, "stats_sites": 1}
+FLOORS = {"sink_calls": 1, "helper_callsites": 10, "stats_sites": 1}
 
 
 def check(prog, run):
